@@ -22,12 +22,16 @@ ExtPool == <<E("generation", "0"), E("network-cost", "10"), E("ufrag", "aB+/"), 
 \* lists of length <= n; two-element lists (distinct keys) over the first pp pool entries
 ExtLists(n, pp) == {<<>>} \cup {<<ExtPool[i]>> : i \in 1..Len(ExtPool)}
                    \cup (IF n >= 2 THEN {<<ExtPool[i], ExtPool[j]>> : i, j \in 1..pp} \ {<<ExtPool[i], ExtPool[i]>> : i \in 1..pp} ELSE {})
+\* extension lists with repeated keys or repeated (key, value) entries: the grammar does not make extension names unique and the parser keeps
+\* every occurrence (AddExtension replaces, so these candidates only come into being by parsing); all lists of length 2 and 3 over DupPool
+DupPool == <<E("generation", "0"), E("generation", "1"), E("network-cost", "10")>>
+DupExtLists == {<<DupPool[i], DupPool[j]>> : i, j \in 1..3} \cup {<<DupPool[i], DupPool[j], DupPool[k]>> : i, j, k \in 1..3}
 Cand(t, nw, tt, a, c, r, e) == [typ |-> t, net |-> nw, tcptype |-> tt, addr |-> a, port |-> 5000, comp |-> c, rel |-> r, ext |-> e]
 \* the domain, parameterised by the addresses, components and extension lists to combine
 DomainOver(AddrSet, CompSet, ExtSet) ==
   UNION {{Cand(t, nw, tt, a, c, r, e) : tt \in TcpTypes(t, nw), a \in Addrs(t, nw) \cap AddrSet, c \in CompSet, r \in Rels(t), e \in ExtSet} : t \in CTypes, nw \in Nets}
 AllAddrs == {"10.0.0.1", "fd00::1", "::ffff:10.0.0.2", "abcd.local"}
-Domain(n, pp) == DomainOver(AllAddrs, {1, 2}, ExtLists(n, pp))
+Domain(n, pp) == DomainOver(AllAddrs, {1, 2}, ExtLists(n, pp)) \cup DomainOver({"10.0.0.1"}, {1}, DupExtLists)
 
 \* ---- equality relations ("Equal": same transport address, type and related address; "DeepEqual": also the same extensions)
 SameTransport(a, b) == a.net = b.net /\ a.addr = b.addr /\ a.port = b.port /\ a.tcptype = b.tcptype
